@@ -25,10 +25,10 @@ INV = ["PropertyHolds", "JoinInv", "TasksSetExact", "QuiescentNotStuck", "Residu
 
 
 def consts(nt, maxops, maxenv, ops, *, depth=3, shields="{0}", cleanups="{0}", pres="{0}",
-           env='{"cancel", "native"}', orders="{FALSE}"):
+           env='{"cancel", "native"}', orders="{FALSE}", leaf_from=99):
     return {"NT": str(nt), "INF": "99", "Ops": ops, "MaxOps": str(maxops), "MaxEnv": str(maxenv),
             "EnvKinds": env, "MaxDepth": str(depth), "Shields": shields, "Cleanups": cleanups, "Pres": pres,
-            "Orders": orders}
+            "Orders": orders, "LeafFrom": str(leaf_from)}
 
 
 def cmp(model: dict, real: dict) -> list[str]:
